@@ -40,6 +40,21 @@ class C07(Prop):
                     case["events"].append(["q", "RATE", t, rr, rr])
         n = len(grid) - 1
         case["ops"] = [["reset", None, 0]] + es.gen_actions(rng, case, n)
+        if rng.random() < 0.08:
+            # a small account fully invested in one very expensive share, with a ticket fee: every step it sells a few
+            # hundred-millionths of a share to pay the previous ticket (trades far below one lot, but real money)
+            k0 = keys[0]
+            gs = sorted(set(case["grid"]))
+            px = Fraction(rng.choice([400000, 450000, 800000]))
+            evs = []
+            for t in gs:
+                px = px * Fraction(rng.randint(99, 101), 100)
+                evs.append(["q", k0, t, fr(F(float(px))), fr(F(float(px)))])
+            case.update(contracts=[dict(key=k0, kind="ETF")], events=evs, grid=gs, deposit="100", fees=["1/100", "0", "0"],
+                        latency=0, delay=0, pre_env_latency=None, sibling=False,
+                        space=dict(kind="box", low="0", high="1", keys=[k0], asWeights=1, fractional=1, margin="0"))
+            case["ops"] = [["reset", None, 0]] + [["step", ["1"]] for _ in range(len(gs) - 1)]
+            case["_tiny_trades"] = True
         return case
 
     def run_impl(self, case):
